@@ -1973,9 +1973,22 @@ class _ParametersRestorer:
         return self._restore
 
     def __exit__(self, exc_type, exc_value, exc_tb):
+        obj = self._parameters.self
         try:
-            self._parameters._update(dict(self._restore, **self._refs))
-            obj = self._parameters.self
+            try:
+                self._parameters._update(dict(self._restore, **self._refs))
+            except Exception:
+                # A reference whose current value the parameter rejects
+                # cannot be assigned back; the link is restored all the
+                # same and the parameter follows again as soon as its
+                # source holds a valid value
+                if obj is not None:
+                    import asyncio
+                    for pname, ref in self._refs.items():
+                        if (not isinstance(ref, asyncio.Future) and
+                                obj._param__private.refs.get(pname, Undefined) is not ref):
+                            obj.param._update_ref(pname, ref)
+                raise
             if obj is not None:
                 for pname in self._unset:
                     values = obj._param__private.values
